@@ -8,8 +8,10 @@ CHECKS = {
     'C04': checks_bytecode.c04,
     'C01': checks_source.c01,
     'C05': checks_vm.c05,
+    'C10': checks_source.c10,
     'C12': checks_source.c12,
     'C13': checks_source.c13,
+    'C14': checks_source.c14,
     'C09': checks_vm.c09,
     'C15': checks_vm.c15,
     'C16': checks_vm.c16,
